@@ -193,7 +193,7 @@ func c03(w *core.World, r *core.Report) {
 		}
 	}
 	for _, f := range w.RepoFns {
-		if f.Pkg == nil || f.Pkg.Pkg.Path() != core.Module+"/pkg/types" {
+		if f.Pkg == nil || core.PkgPath(f) != core.Module+"/pkg/types" {
 			continue
 		}
 		for _, c := range core.OwnCalls(f) {
@@ -285,7 +285,7 @@ func mayBeNonNil(w *core.World, v ssa.Value, depth int) bool {
 			continue
 		}
 		if c, ok := o.(*ssa.Call); ok && depth < 3 {
-			if callee := c.Common().StaticCallee(); callee != nil && callee.Blocks != nil && strings.HasPrefix(callee.Pkg.Pkg.Path(), core.Module) {
+			if callee := c.Common().StaticCallee(); callee != nil && callee.Blocks != nil && strings.HasPrefix(core.PkgPath(callee), core.Module) {
 				if definitelyNilFunc(w, callee, depth) {
 					continue
 				}
